@@ -122,7 +122,9 @@ for k, f in F.items():
         CASES += [k + ":O", k + ":H"] + ([k + ":HO", k + ":R"] if f["section"] == "UH" else [])
     else:
         CASES.append(k)
-QUICK = ["EH:fwrel:n16", "EH:fwsub:n16", "PH:cssver", "UH:comp:HO", "PH:plid", "PH:eid", "PH:commit", "PH:creator", "PH:obmc", "UH:sev", "UH:flags", "UH:states", "UH:comp:H",
+        if f["kind"] in ("hex", "dec") and f["width"] >= 2:
+            CASES.append(k + ":hi")       # the same field restricted to values with the top bit set (sign boundary)
+QUICK = ["PH:cssver:hi", "PH:obmc:hi", "EH:fwrel:n16", "EH:fwsub:n16", "PH:cssver", "UH:comp:HO", "PH:plid", "PH:eid", "PH:commit", "PH:creator", "PH:obmc", "UH:sev", "UH:flags", "UH:states", "UH:comp:H",
          "EH:mtm:n7", "EH:symptom:n4", "MT:sn:n11", "LP:targets:n3", "LP:name:n4", "LP:part_id"]
 
 SLOW = ["UH:flags"]      # 256 paths (8 independent bit tests), ~0.5 s each
@@ -162,6 +164,8 @@ def h_field() -> bool:
     if kind in ("rawint", "hex", "dec", "table", "flags", "states", "hidden", "creator"):
         w = f["width"]
         x = sym_int("x", 0, 127 if kind == "creator" else 256 ** w - 1)
+        if arg == "hi":
+            assume(be(x, w)[0] >= 0x80)
         kw[name] = x
     elif kind == "compid":
         x = sym_int("x", 0, 0xFFFF)
